@@ -89,11 +89,11 @@ Definition r_clone_struct (name : string) (sh : shape) (fs : list fld) : toks :=
   tbrace ([TI name] ++ ctor_args sh fs
             (map (fun f => ufcs (r_ty (fl_ty f)) clone_tr "clone"
                              [TP "&" :: self_dot "self" (fl_member f)]) fs)) ++
-  q "fn clone_from ( & mut self , source : & Self )" ++
+  q "fn clone_from ( & mut self , __source : & Self )" ++
   tbrace (term_by [TP ";"]
             (map (fun f => ufcs (r_ty (fl_ty f)) clone_tr "clone_from"
                              [q "& mut" ++ self_dot "self" (fl_member f);
-                              TP "&" :: self_dot "source" (fl_member f)]) fs)).
+                              TP "&" :: self_dot "__source" (fl_member f)]) fs)).
 
 Definition binders (prefix : string) (fs : list fld) : list toks :=
   map (fun f => [TI (make_ident prefix (fl_member f))]) fs.
@@ -115,29 +115,29 @@ Definition match_self {A} (vs : list A) : toks :=
 Definition r_clone_enum (vs : list (string * shape * list fld)) : toks :=
   let arm_clone arm :=
     let '(v, sh, fs) := arm in
-    make_pat [TI "Self"] "l" arm ++ [TP "=>"] ++ q "Self ::" ++ [TI v] ++
+    make_pat [TI "Self"] "__l" arm ++ [TP "=>"] ++ q "Self ::" ++ [TI v] ++
     ctor_args sh fs
-      (map (fun f => ufcs (r_ty (fl_ty f)) clone_tr "clone" [[TI (make_ident "l" (fl_member f))]]) fs) in
+      (map (fun f => ufcs (r_ty (fl_ty f)) clone_tr "clone" [[TI (make_ident "__l" (fl_member f))]]) fs) in
   let arm_clone_from arm :=
     let '(v, sh, fs) := arm in
-    tparen (make_pat [TI "Self"] "l" arm ++ comma ++ make_pat [TI "Self"] "r" arm) ++ [TP "=>"] ++
+    tparen (make_pat [TI "Self"] "__l" arm ++ comma ++ make_pat [TI "Self"] "__r" arm) ++ [TP "=>"] ++
     tbrace (term_by [TP ";"]
               (map (fun f => ufcs (r_ty (fl_ty f)) clone_tr "clone_from"
-                               [[TI (make_ident "l" (fl_member f))];
-                                [TI (make_ident "r" (fl_member f))]]) fs)) in
+                               [[TI (make_ident "__l" (fl_member f))];
+                                [TI (make_ident "__r" (fl_member f))]]) fs)) in
   q "fn clone ( & self ) -> Self" ++
   tbrace (match_self vs ++ tbrace (term_by comma (map arm_clone vs))) ++
-  q "fn clone_from ( & mut self , source : & Self )" ++
-  tbrace (q "match ( self , source )" ++
+  q "fn clone_from ( & mut self , __source : & Self )" ++
+  tbrace (q "match ( self , __source )" ++
           tbrace (term_by comma (map arm_clone_from vs) ++
-                  q "( lhs , rhs ) => * lhs = < Self as :: core :: clone :: Clone > :: clone ( rhs ) ,")).
+                  q "( __lhs , __rhs ) => * __lhs = < Self as :: core :: clone :: Clone > :: clone ( __rhs ) ,")).
 
 Definition r_debug_expr (d : debug_body) (place : fld -> toks) : toks :=
   match d with
-  | DbgTransparent f => q ":: core :: fmt :: Debug :: fmt" ++ tparen (place f ++ q ", f")
+  | DbgTransparent f => q ":: core :: fmt :: Debug :: fmt" ++ tparen (place f ++ q ", __f")
   | DbgFields name sh fs =>
       let named := match sh with ShNamed => true | _ => false end in
-      q "f ." ++ [TI (if named then "debug_struct" else "debug_tuple")] ++
+      q "__f ." ++ [TI (if named then "debug_struct" else "debug_tuple")] ++
       tparen (q ":: core :: stringify !" ++ tparen [TI (unraw name)]) ++
       concat (map (fun f =>
                      q ". field" ++
@@ -152,7 +152,7 @@ Definition r_debug_expr (d : debug_body) (place : fld -> toks) : toks :=
   end.
 
 Definition fmt_sig : toks :=
-  q "fn fmt ( & self , f : & mut :: core :: fmt :: Formatter ) -> :: core :: fmt :: Result".
+  q "fn fmt ( & self , __f : & mut :: core :: fmt :: Formatter ) -> :: core :: fmt :: Result".
 
 Definition r_dvalue (v : dvalue) : toks :=
   match v with
@@ -174,8 +174,8 @@ Inductive src_kind := SKStruct | SKEnum.
 (** `self_of` / `this_of` / `other_of` *)
 Definition place_of (sk : src_kind) (base : string) (m : member) : toks :=
   match sk with
-  | SKStruct => tparen (self_dot base m)
-  | SKEnum => tparen [TP "*"; TI (make_ident ("_" +++ base) m)]
+  | SKStruct => tparen (self_dot (if String.eqb base "self" then base else "__" +++ base) m)
+  | SKEnum => tparen [TP "*"; TI (make_ident ("__" +++ base) m)]
   end.
 
 (** `Template::apply` *)
@@ -208,24 +208,24 @@ Definition r_cmp_expr (op : cmpop) (sk : src_kind) (c : cmp_field) : toks :=
       | CEKey k => call2 (q ":: core :: cmp :: PartialEq :: eq") (apply_template k this) (apply_template k other)
       | CEBy CPartialOrd b =>
           by_fn fn_ident
-            (tparen (q "this :" ++ reft ++ q ", other :" ++ reft ++ q ", partial_cmp : impl :: core :: ops :: Fn" ++
+            (tparen (q "__this :" ++ reft ++ q ", __other :" ++ reft ++ q ", __by : impl :: core :: ops :: Fn" ++
                      tparen two_refs ++ q "->" ++ opt_ordering))
             (q "-> bool")
-            (q "partial_cmp ( this , other ) == :: core :: option :: Option :: Some ( :: core :: cmp :: Ordering :: Equal )")
+            (q "__by ( __this , __other ) == :: core :: option :: Option :: Some ( :: core :: cmp :: Ordering :: Equal )")
             (q "&" ++ this ++ q ", &" ++ other ++ comma ++ b)
       | CEBy COrd b =>
           by_fn fn_ident
-            (tparen (q "this :" ++ reft ++ q ", other :" ++ reft ++ q ", cmp : impl :: core :: ops :: Fn" ++
+            (tparen (q "__this :" ++ reft ++ q ", __other :" ++ reft ++ q ", __by : impl :: core :: ops :: Fn" ++
                      tparen two_refs ++ q "->" ++ ordering))
             (q "-> bool")
-            (q "cmp ( this , other ) == :: core :: cmp :: Ordering :: Equal")
+            (q "__by ( __this , __other ) == :: core :: cmp :: Ordering :: Equal")
             (q "&" ++ this ++ q ", &" ++ other ++ comma ++ b)
       | CEBy _ b =>
           by_fn fn_ident
-            (tparen (q "this :" ++ reft ++ q ", other :" ++ reft ++ q ", eq : impl :: core :: ops :: Fn" ++
+            (tparen (q "__this :" ++ reft ++ q ", __other :" ++ reft ++ q ", __by : impl :: core :: ops :: Fn" ++
                      tparen two_refs ++ q "-> bool"))
             (q "-> bool")
-            (q "eq ( this , other )")
+            (q "__by ( __this , __other )")
             (q "&" ++ this ++ q ", &" ++ other ++ comma ++ b)
       end
   | CPartialOrd =>
@@ -237,17 +237,17 @@ Definition r_cmp_expr (op : cmpop) (sk : src_kind) (c : cmp_field) : toks :=
                            (apply_template k this) (apply_template k other)
         | CEBy COrd b =>
             by_fn fn_ident
-              (tparen (q "this :" ++ reft ++ q ", other :" ++ reft ++ q ", cmp : impl :: core :: ops :: Fn" ++
+              (tparen (q "__this :" ++ reft ++ q ", __other :" ++ reft ++ q ", __by : impl :: core :: ops :: Fn" ++
                        tparen two_refs ++ q "->" ++ ordering))
               (q "->" ++ opt_ordering)
-              (q ":: core :: option :: Option :: Some ( cmp ( this , other ) )")
+              (q ":: core :: option :: Option :: Some ( __by ( __this , __other ) )")
               (q "&" ++ this ++ q ", &" ++ other ++ comma ++ b)
         | CEBy _ b =>
             by_fn fn_ident
-              (tparen (q "this :" ++ reft ++ q ", other :" ++ reft ++ q ", partial_cmp : impl :: core :: ops :: Fn" ++
+              (tparen (q "__this :" ++ reft ++ q ", __other :" ++ reft ++ q ", __by : impl :: core :: ops :: Fn" ++
                        tparen two_refs ++ q "->" ++ opt_ordering))
               (q "->" ++ opt_ordering)
-              (q "partial_cmp ( this , other )")
+              (q "__by ( __this , __other )")
               (q "&" ++ this ++ q ", &" ++ other ++ comma ++ b)
         end in
       if cf_reverse c
@@ -261,24 +261,24 @@ Definition r_cmp_expr (op : cmpop) (sk : src_kind) (c : cmp_field) : toks :=
         | CEKey k => call2 (q ":: core :: cmp :: Ord :: cmp") (apply_template k this) (apply_template k other)
         | CEBy _ b =>
             by_fn fn_ident
-              (tparen (q "this :" ++ reft ++ q ", other :" ++ reft ++ q ", cmp : impl :: core :: ops :: Fn" ++
+              (tparen (q "__this :" ++ reft ++ q ", __other :" ++ reft ++ q ", __by : impl :: core :: ops :: Fn" ++
                        tparen two_refs ++ q "->" ++ ordering))
               (q "->" ++ ordering)
-              (q "cmp ( this , other )")
+              (q "__by ( __this , __other )")
               (q "&" ++ this ++ q ", &" ++ other ++ comma ++ b)
         end in
       if cf_reverse c then q ":: core :: cmp :: Ordering :: reverse" ++ tparen e else e
   | CHash =>
       let fn_ident := make_ident "__hash_" m in
       match cf_expr c with
-      | CEDefault _ => q ":: core :: hash :: Hash :: hash" ++ tparen (q "&" ++ tparen this ++ q ", state") ++ q ";"
-      | CEKey k => q ":: core :: hash :: Hash :: hash" ++ tparen (q "&" ++ tparen (apply_template k this) ++ q ", state") ++ q ";"
+      | CEDefault _ => q ":: core :: hash :: Hash :: hash" ++ tparen (q "&" ++ tparen this ++ q ", __state") ++ q ";"
+      | CEKey k => q ":: core :: hash :: Hash :: hash" ++ tparen (q "&" ++ tparen (apply_template k this) ++ q ", __state") ++ q ";"
       | CEBy _ b =>
           tbrace ([TI "fn"; TI fn_ident] ++ q "< __T : ? :: core :: marker :: Sized , __H : :: core :: hash :: Hasher >" ++
-                  tparen (q "this :" ++ reft ++ q ", state : & mut __H , hash : impl :: core :: ops :: Fn" ++
+                  tparen (q "__this :" ++ reft ++ q ", __state : & mut __H , __by : impl :: core :: ops :: Fn" ++
                           tparen (reft ++ q ", & mut __H")) ++
-                  tbrace (q "hash ( this , state )") ++
-                  [TI fn_ident] ++ tparen (q "&" ++ this ++ q ", state ," ++ b))
+                  tbrace (q "__by ( __this , __state )") ++
+                  [TI fn_ident] ++ tparen (q "&" ++ this ++ q ", __state ," ++ b))
       end
   | CEq => []
   end.
@@ -293,11 +293,11 @@ Definition r_cmp_fields (op : cmpop) (sk : src_kind) (cs : list cmp_field) : tok
       end
   | CPartialOrd =>
       concat (map (fun c => [TI "match"] ++ r_cmp_expr op sk c ++
-                            tbrace (q ":: core :: option :: Option :: Some ( :: core :: cmp :: Ordering :: Equal ) => { } o => return o ,")) cs)
+                            tbrace (q ":: core :: option :: Option :: Some ( :: core :: cmp :: Ordering :: Equal ) => { } __o => return __o ,")) cs)
       ++ q ":: core :: option :: Option :: Some ( :: core :: cmp :: Ordering :: Equal )"
   | COrd =>
       concat (map (fun c => [TI "match"] ++ r_cmp_expr op sk c ++
-                            tbrace (q ":: core :: cmp :: Ordering :: Equal => { } o => return o ,")) cs)
+                            tbrace (q ":: core :: cmp :: Ordering :: Equal => { } __o => return __o ,")) cs)
       ++ q ":: core :: cmp :: Ordering :: Equal"
   | CHash => concat (map (r_cmp_expr op sk) cs)
   | CEq => []
@@ -312,31 +312,31 @@ Fixpoint index_arms (vs : list (string * shape * list fld)) (i : nat) : toks :=
   end.
 (** `build_to_index_fn` *)
 Definition to_index_fn (vs : list (string * shape * list fld)) : toks :=
-  q "let to_index = | this : & Self | -> usize" ++
-  tbrace (q "match this" ++ tbrace (index_arms vs 0 ++ q "_ => :: core :: unreachable ! ( ) ,")) ++ q ";".
+  q "let __to_index = | __this : & Self | -> usize" ++
+  tbrace (q "match __this" ++ tbrace (index_arms vs 0 ++ q "_ => :: core :: unreachable ! ( ) ,")) ++ q ";".
 
 Definition arm_of {A} (x : string * shape * list fld * A) : string * shape * list fld := fst x.
 
 Definition r_cmp_enum (op : cmpop) (vs : list (string * shape * list fld * list cmp_field)) : toks :=
   let arms2 :=
-    concat (map (fun x => tparen (make_pat [TI "Self"] "_self" (arm_of x) ++ comma ++
-                                  make_pat [TI "Self"] "_other" (arm_of x)) ++ [TP "=>"] ++
+    concat (map (fun x => tparen (make_pat [TI "Self"] "__self" (arm_of x) ++ comma ++
+                                  make_pat [TI "Self"] "__other" (arm_of x)) ++ [TP "=>"] ++
                           tbrace (r_cmp_fields op SKEnum (snd x))) vs) in
   match op with
-  | CPartialEq => q "match ( self , other )" ++ tbrace (arms2 ++ q "_ => false ,")
+  | CPartialEq => q "match ( self , __other )" ++ tbrace (arms2 ++ q "_ => false ,")
   | CPartialOrd =>
-      q "match ( self , other )" ++
-      tbrace (arms2 ++ q "( this , other ) =>" ++
+      q "match ( self , __other )" ++
+      tbrace (arms2 ++ q "( __this , __other ) =>" ++
               tbrace (to_index_fn (map arm_of vs) ++
-                      q ":: core :: cmp :: PartialOrd :: partial_cmp ( & to_index ( this ) , & to_index ( other ) )") ++ q ",")
+                      q ":: core :: cmp :: PartialOrd :: partial_cmp ( & __to_index ( __this ) , & __to_index ( __other ) )") ++ q ",")
   | COrd =>
-      q "match ( self , other )" ++
-      tbrace (arms2 ++ q "( this , other ) =>" ++
+      q "match ( self , __other )" ++
+      tbrace (arms2 ++ q "( __this , __other ) =>" ++
               tbrace (to_index_fn (map arm_of vs) ++
-                      q ":: core :: cmp :: Ord :: cmp ( & to_index ( this ) , & to_index ( other ) )") ++ q ",")
+                      q ":: core :: cmp :: Ord :: cmp ( & __to_index ( __this ) , & __to_index ( __other ) )") ++ q ",")
   | CHash =>
       q "match self" ++
-      tbrace (concat (map (fun x => make_pat [TI "Self"] "_self" (arm_of x) ++ [TP "=>"] ++
+      tbrace (concat (map (fun x => make_pat [TI "Self"] "__self" (arm_of x) ++ [TP "=>"] ++
                                     tbrace (r_cmp_fields op SKEnum (snd x))) vs) ++
               q "_ => :: core :: unreachable ! ( ) ,")
   | CEq => []
@@ -345,7 +345,7 @@ Definition r_cmp_enum (op : cmpop) (vs : list (string * shape * list fld * list 
 Definition r_eq_check (sk : src_kind) (x : fld * eq_check) : toks :=
   let this := place_of sk "this" (fl_member (fst x)) in
   let chk (e : toks) :=
-    tbrace (q "fn _eq < T : :: core :: cmp :: Eq + ? Sized > ( _this : & T ) { } _eq" ++ tparen (q "&" ++ tparen e)) in
+    tbrace (q "fn __assert_eq < T : :: core :: cmp :: Eq + ? :: core :: marker :: Sized > ( __this : & T ) { } __assert_eq" ++ tparen (q "&" ++ tparen e)) in
   match snd x with
   | QNone => []
   | QField => chk this
@@ -375,8 +375,8 @@ Definition r_body (h : impl_hdr) (b : body) : toks :=
       fmt_sig ++
       tbrace (match_self vs ++
               tbrace (term_by comma
-                        (map (fun x => make_pat [TI "Self"] "" (arm_of x) ++ [TP "=>"] ++
-                                       r_debug_expr (snd x) (fun f => [TI (make_ident "" (fl_member f))]))
+                        (map (fun x => make_pat [TI "Self"] "__v" (arm_of x) ++ [TP "=>"] ++
+                                       r_debug_expr (snd x) (fun f => [TI (make_ident "__v" (fl_member f))]))
                              vs)))
   | BDefaultSelf v => q "fn default ( ) -> Self" ++ tbrace (r_dvalue v)
   | BDefaultCtor path sh vs =>
@@ -386,22 +386,22 @@ Definition r_body (h : impl_hdr) (b : body) : toks :=
   | BBin op l r name sh fs =>
       let func := binop_func op in
       q "type Output =" ++ this ++ q "; fn" ++ [TI func] ++
-      tparen (q "self , rhs :" ++ with_ref r this) ++ q "-> Self :: Output" ++
+      tparen (q "self , __rhs :" ++ with_ref r this) ++ q "-> Self :: Output" ++
       tbrace ([TI name] ++ ctor_args sh fs
                 (map (fun f =>
                         let ft := r_ty (fl_ty f) in
                         ufcs (with_ref l ft) (tr ++ [TP "<"] ++ with_ref r ft ++ [TP ">"]) func
                              [with_ref l (self_dot "self" (fl_member f));
-                              with_ref r (self_dot "rhs" (fl_member f))]) fs))
+                              with_ref r (self_dot "__rhs" (fl_member f))]) fs))
   | BAssign op r fs =>
       let func := binop_func op +++ "_assign" in
-      [TI "fn"; TI func] ++ tparen (q "& mut self , rhs :" ++ with_ref r this) ++
+      [TI "fn"; TI func] ++ tparen (q "& mut self , __rhs :" ++ with_ref r this) ++
       tbrace (term_by [TP ";"]
                 (map (fun f =>
                         let ft := r_ty (fl_ty f) in
                         ufcs ft (tr ++ [TP "<"] ++ with_ref r ft ++ [TP ">"]) func
                              [q "& mut" ++ self_dot "self" (fl_member f);
-                              with_ref r (self_dot "rhs" (fl_member f))]) fs))
+                              with_ref r (self_dot "__rhs" (fl_member f))]) fs))
   | BUn op l name sh fs =>
       let func := unop_func op in
       q "type Output =" ++ this ++ q "; fn" ++ [TI func] ++ q "( self ) -> Self :: Output" ++
@@ -410,24 +410,24 @@ Definition r_body (h : impl_hdr) (b : body) : toks :=
                         ufcs (with_ref l (r_ty (fl_ty f))) tr func
                              [with_ref l (self_dot "self" (fl_member f))]) fs))
   | BPartialEqStruct cs =>
-      q "fn eq ( & self , other : & Self ) -> bool" ++ tbrace (r_cmp_fields CPartialEq SKStruct cs)
+      q "fn eq ( & self , __other : & Self ) -> bool" ++ tbrace (r_cmp_fields CPartialEq SKStruct cs)
   | BPartialEqEnum vs =>
-      q "fn eq ( & self , other : & Self ) -> bool" ++ tbrace (r_cmp_enum CPartialEq vs)
+      q "fn eq ( & self , __other : & Self ) -> bool" ++ tbrace (r_cmp_enum CPartialEq vs)
   | BPartialOrdStruct cs =>
-      q "fn partial_cmp ( & self , other : & Self ) ->" ++ opt_ordering ++
+      q "fn partial_cmp ( & self , __other : & Self ) ->" ++ opt_ordering ++
       tbrace (r_cmp_fields CPartialOrd SKStruct cs)
   | BPartialOrdEnum vs =>
-      q "fn partial_cmp ( & self , other : & Self ) ->" ++ opt_ordering ++
+      q "fn partial_cmp ( & self , __other : & Self ) ->" ++ opt_ordering ++
       tbrace (r_cmp_enum CPartialOrd vs)
   | BOrdStruct cs =>
-      q "fn cmp ( & self , other : & Self ) ->" ++ ordering ++ tbrace (r_cmp_fields COrd SKStruct cs)
+      q "fn cmp ( & self , __other : & Self ) ->" ++ ordering ++ tbrace (r_cmp_fields COrd SKStruct cs)
   | BOrdEnum vs =>
-      q "fn cmp ( & self , other : & Self ) ->" ++ ordering ++ tbrace (r_cmp_enum COrd vs)
+      q "fn cmp ( & self , __other : & Self ) ->" ++ ordering ++ tbrace (r_cmp_enum COrd vs)
   | BHashStruct cs =>
-      q "fn hash < __H : :: core :: hash :: Hasher > ( & self , state : & mut __H )" ++
+      q "fn hash < __H : :: core :: hash :: Hasher > ( & self , __state : & mut __H )" ++
       tbrace (r_cmp_fields CHash SKStruct cs)
   | BHashEnum vs =>
-      q "fn hash < __H : :: core :: hash :: Hasher > ( & self , state : & mut __H )" ++
+      q "fn hash < __H : :: core :: hash :: Hasher > ( & self , __state : & mut __H )" ++
       tbrace (r_cmp_enum CHash vs)
   | BEqStruct _ => []
   | BEqEnum _ _ => []
@@ -437,13 +437,13 @@ Definition r_body (h : impl_hdr) (b : body) : toks :=
 Definition r_eq_checker (h : impl_hdr) (b : body) : option toks :=
   let wrap (inner : toks) :=
     q "const _ : ( ) =" ++
-    tbrace (cmp_allow ++ q "fn _f" ++ r_impl_g (ih_generics h) ++
-            tparen (q "this : &" ++ r_ty (ih_this h)) ++ r_wheres h ++ tbrace inner) ++ q ";" in
+    tbrace (cmp_allow ++ q "fn __eq_check" ++ r_impl_g (ih_generics h) ++
+            tparen (q "__this : &" ++ r_ty (ih_this h)) ++ r_wheres h ++ tbrace inner) ++ q ";" in
   match b with
   | BEqStruct cs => Some (wrap (concat (map (r_eq_check SKStruct) cs)))
   | BEqEnum tyname vs =>
-      Some (wrap (q "match this" ++
-                  tbrace (concat (map (fun x => make_pat [TI tyname] "_this" (arm_of x) ++ [TP "=>"] ++
+      Some (wrap (q "match __this" ++
+                  tbrace (concat (map (fun x => make_pat [TI tyname] "__this" (arm_of x) ++ [TP "=>"] ++
                                                 tbrace (concat (map (r_eq_check SKEnum) (snd x)))) vs)
                           ++ q "_ => { }")))
   | _ => None
@@ -468,19 +468,19 @@ Definition r_op_ir (o : op_ir) : toks * toks :=
       (q "# [ automatically_derived ] impl" ++ r_impl_g g ++ bt ++ [TP "<"] ++ with_ref ir trhs ++ [TP ">"] ++
        [TI "for"] ++ with_ref il tthis ++ r_where_g g,
        q "type Output =" ++ r_ty output ++ q "; fn" ++ [TI func] ++
-       tparen (q "self , rhs :" ++ with_ref ir trhs) ++ q "-> Self :: Output" ++
+       tparen (q "self , __rhs :" ++ with_ref ir trhs) ++ q "-> Self :: Output" ++
        tbrace (ufcs (with_ref cl tthis) (bt ++ [TP "<"] ++ with_ref cr trhs ++ [TP ">"]) func
-                    [change_owned [TI "self"] tthis il cl; change_owned [TI "rhs"] trhs ir cr]))
+                    [change_owned [TI "self"] tthis il cl; change_owned [TI "__rhs"] trhs ir cr]))
   | OpAssignFromBin g op this rhs cl =>
       let bt := core_path ["core"; "ops"; binop_to_str op] in
       let at_ := core_path ["core"; "ops"; binop_to_str op +++ "Assign"] in
       let tthis := r_ty this in let trhs := r_ty rhs in
       (q "# [ automatically_derived ] impl" ++ r_impl_g g ++ at_ ++ [TP "<"] ++ trhs ++ [TP ">"] ++
        [TI "for"] ++ tthis ++ r_where_g g,
-       [TI "fn"; TI (binop_func op +++ "_assign")] ++ tparen (q "& mut self , rhs :" ++ trhs) ++
+       [TI "fn"; TI (binop_func op +++ "_assign")] ++ tparen (q "& mut self , __rhs :" ++ trhs) ++
        tbrace (q "* self =" ++
                ufcs (with_ref cl tthis) (bt ++ [TP "<"] ++ trhs ++ [TP ">"]) (binop_func op)
-                    [change_owned [TI "self"] tthis true cl; [TI "rhs"]]))
+                    [change_owned [TI "self"] tthis true cl; [TI "__rhs"]]))
   | OpBinFromAssign g op this rhs =>
       let bt := core_path ["core"; "ops"; binop_to_str op] in
       let at_ := core_path ["core"; "ops"; binop_to_str op +++ "Assign"] in
@@ -488,9 +488,9 @@ Definition r_op_ir (o : op_ir) : toks * toks :=
       (q "# [ automatically_derived ] impl" ++ r_impl_g g ++ bt ++ [TP "<"] ++ trhs ++ [TP ">"] ++
        [TI "for"] ++ tthis ++ r_where_g g,
        q "type Output =" ++ tthis ++ q "; fn" ++ [TI (binop_func op)] ++
-       tparen (q "mut self , rhs :" ++ trhs) ++ q "-> Self :: Output" ++
+       tparen (q "mut self , __rhs :" ++ trhs) ++ q "-> Self :: Output" ++
        tbrace (ufcs tthis (at_ ++ [TP "<"] ++ trhs ++ [TP ">"]) (binop_func op +++ "_assign")
-                    [q "& mut self"; [TI "rhs"]] ++ q "; self"))
+                    [q "& mut self"; [TI "__rhs"]] ++ q "; self"))
   end.
 
 (** ** parts, in the format of the Rust expander *)
